@@ -517,7 +517,10 @@ def rule_R6(ctx, repo, eng, imm, mut, rid='C09.R6'):
         # ... and every path hands an object back: a path that falls off the end answers None, which the constructors
         # of the enclosing classes then store as an element
         mf_ = flow.run_must(f.node)
-        if any(k_ == 'fallthrough' for k_, n_, f_ in mf_.exits):
+        if any(k_ == 'fallthrough' for k_, n_, f_ in mf_.exits) and c.name not in ('COutPoint', 'CTxIn', 'CTxOut', 'CTransaction'):
+            bad = True
+            r.undecided(key + ':returns', f.site, '%s can finish without returning an object (no constructor of the library copies through it)' % key)
+        elif any(k_ == 'fallthrough' for k_, n_, f_ in mf_.exits):
             bad = True
             r.violated(key + ':returns', f.site, '%s can finish without returning: a %s source yields None, and the immutable copy that was asked for holds None in its place' % (key, 'mutable' if idrets else 'given'), sure=True)
         if not bad:
